@@ -38,7 +38,7 @@ func runC01(c *Ctx) {
 	c.Rule("C01.R6", "HTTP/1: nothing parses the URI of the outgoing request (fasthttp would rebuild the request line normalised)", 2)
 	defer c01HTTPRequestLine(c)
 	c.Rule("C01.R7", "HTTP/2 body chunks are copied out of the connection read buffer, never wrapped or kept", 2)
-	defer c01H2BodyCopied(c)
+	defer c01H2BodyCopied(c, "C01.R7")
 	c.Rule("C01.R8", "bytes returned by a read are delivered to the filters even when the read also reported EOF", 2)
 	defer c01ReadBytesDelivered(c)
 	c.NotDecided = append(c.NotDecided, "HTTP/1.1 and HTTP/2 method/URI/header/body fidelity (runtime string values)", "tars byte identity (always re-encoded through TarsGo)", "header.EncodeHeader/DecodeHeader inverse property (dependency)")
